@@ -178,6 +178,18 @@ def directed_pairs():
             else:
                 e["base"] = "uint64"
             pairs.append((a, b, f"directed:{name}{'-documented' if documented else ''}: Mode {name} changed"))
+    # types that differ only in a length or a dimension - a length of zero included: `T*0` has no count on the wire, `T*` has one
+    P_ = lambda n: ("prim", n)
+    type_pairs = [("vector-length-0-vs-none", ("vec", P_("int32"), 0), ("vec", P_("int32"), None)), ("vector-length-1-vs-none", ("vec", P_("int32"), 1), ("vec", P_("int32"), None)),
+                  ("vector-length-0-vs-1", ("vec", P_("int32"), 0), ("vec", P_("int32"), 1)), ("array-rank-1-vs-dynamic", ("arr", P_("float32"), ("rank", 1, None)), ("arr", P_("float32"), ("dyn",))),
+                  ("array-fixed-1-vs-rank-1", ("arr", P_("float32"), ("fixed", [1], None)), ("arr", P_("float32"), ("rank", 1, None)))]
+    for name, ta, tb in type_pairs:
+        a, b = base(), base()
+        a.defs.append({"kind": "record", "name": "Frame", "tparams": [], "fields": [("samples", ta), ("n", P("int32"))]})
+        b.defs.append({"kind": "record", "name": "Frame", "tparams": [], "fields": [("samples", tb), ("n", P("int32"))]})
+        for pkg, t in ((a, ta), (b, tb)):
+            pkg.defs.append({"kind": "protocol", "name": "Pd", "steps": [("h", t, False), ("s", ("named", "Frame", []), True)]})
+        pairs.append((a, b, f"directed:{name}"))
     return pairs
 
 
